@@ -1,7 +1,7 @@
 (* Correspondence glue: the cases the harness observed on the real code, evaluated
    on the model by vm_compute. Each function returns the indexes of the cases on
    which model and implementation disagree. *)
-From Formats Require Import Regex FormatModel Cache.
+From Formats Require Import Regex FormatModel IPModel Cache.
 Open Scope nat_scope.
 
 Definition mkb (b : bool) (r : re) (e : bool) : branch := {| bol := b; body := r; eol := e |}.
@@ -24,7 +24,9 @@ Record answers := ans {
   a_regexp : bool; a_json : bool; a_rfc1123 : bool }.
 
 Definition model_format (f : format) (s : word) (a : answers) : bool :=
-  validate_format (fun _ => a_ip a) (fun _ => a_rfc3339 a) (fun _ => a_mail a) (fun _ => a_uri a)
+  (* net.ParseIP is modelled (IPModel.v); its observed answer is used as the IPv6 text
+     parser's answer, i.e. only when the first of . : % in the input is a colon *)
+  validate_format (parse_ip_model (fun _ => a_ip a)) (fun _ => a_rfc3339 a) (fun _ => a_mail a) (fun _ => a_uri a)
                   (fun _ => a_mac a) (fun _ => a_cidr a) (fun _ => a_regexp a) (fun _ => a_json a)
                   (fun _ => a_rfc1123 a) f s.
 
